@@ -406,19 +406,16 @@ theorem C05_truncated_reserved_described2_example :
     DComp.staticField, staticItemC, Pair.padTo, DecState.atParam, DecState.readEnd]
   decide +kernel
 
-/-! ### the log against W19's `Reads`, at the leaves (partial answer to W19's NOT proved (2)) -/
+/-! ### the log against W19's `Reads`, at the leaves -/
 
-/-- **Every request of a diag-coded type is an object of `Reads` (strict mode)** — `C05_leaf_requests_are_reads_partial`:
-    for the four diag-coded types (standard-length with and without BIT-MASK, MIN-MAX, LEADING-LENGTH, PARAM-LENGTH), every state
-    and every log: an entry that a strict run of `decodeDctL c` (returned or raised) adds to the log carries the current probe
-    flag and is an object of `Reads true n (.dct c)` with exactly these bytes — or it is the body of a MIN-MAX object, which lies
-    inside the message (its length is computed from the message).
-    Full statement (not proved): the same for `decodeDopL` / `decodeParamL` / … and the sites `.dop` / `.param` / … of `Reads` — the
-    33 rules above the leaves mirror the sequencing of the decoder (`…Head` = the first action, `…Tail` = a later action after
-    the earlier ones returned; `erases_decode_all` supplies the "returned" premises, `grows_decode_all` the position in the log).
+/-- **Every request of a diag-coded type is an object of `Reads` (strict mode)**: for the four diag-coded types (standard-length
+    with and without BIT-MASK, MIN-MAX, LEADING-LENGTH, PARAM-LENGTH), every state and every log: an entry that a strict run of
+    `decodeDctL c` (returned or raised) adds to the log carries the current probe flag and is an object of `Reads true n (.dct c)`
+    with exactly these bytes — or it is the body of a MIN-MAX object, which lies inside the message (its length is computed from
+    the message).  The leaf level of `C05_requests_are_reads` below.
     In lenient mode the statement is false at the leaves already: a float object of the wrong width and a MIN-MAX object at a
     non-zero bit cursor are requested (after a swallowed `odxraise`) but have no rule in `Reads`. -/
-theorem C05_leaf_requests_are_reads_partial (n : Nat) (c : Dct) (ls : LState) :
+theorem C05_leaf_requests_are_reads (n : Nat) (c : Dct) (ls : LState) :
     ∀ e ∈ resLog (decodeDctL c ls true), e ∈ ls.log ∨
       (e.probe = ls.probe ∧
         ((∃ dr bl, Reads true n (.dct c) ls.st dr bl ∧ e.start = dr.cursorByte ∧ e.stop = dr.readEnd bl) ∨
@@ -431,7 +428,7 @@ example : resLog (decodeDctL (.leading .bytefield none true 8) { st := { msg := 
     [⟨2, 5, false⟩, ⟨1, 2, false⟩] := by decide +kernel
 example : ∃ dr bl, Reads true 0 (.dct (.leading .bytefield none true 8)) { msg := [0x22, 3, 0xaa, 0xbb], cursorByte := 1 } dr bl ∧
     dr.cursorByte = 2 ∧ dr.readEnd bl = 5 := by
-  have h := C05_leaf_requests_are_reads_partial 0 (.leading .bytefield none true 8)
+  have h := C05_leaf_requests_are_reads 0 (.leading .bytefield none true 8)
     { st := { msg := [0x22, 3, 0xaa, 0xbb], cursorByte := 1 } } ⟨2, 5, false⟩ (by decide +kernel)
   rcases h with h | ⟨_, ⟨dr, bl, hr, h1, h2⟩ | h⟩
   · cases h
